@@ -181,7 +181,7 @@ struct C09 : Scenario {
     Json generate(Rng& rng, const std::string& tier, std::uint64_t) override {
         Json p = Json::object();
         p["scenario"] = "S-RUN";
-        GenOpts o; o.late_edits = true; o.max_steps = tier == "thorough" ? 10 : 7; o.max_actions = 2; o.max_udq = 1; o.restart_safe_conditions = false;
+        GenOpts o; o.family_snippets = true; o.late_edits = true; o.max_steps = tier == "thorough" ? 10 : 7; o.max_actions = 2; o.max_udq = 1; o.restart_safe_conditions = false;
         p["model_seed"] = static_cast<long long>(rng.next() >> 8);
         p["gen"] = o.to_json();
         p["physics_seed"] = static_cast<long long>(rng.next() >> 16);
